@@ -38,6 +38,19 @@ def JournalOk (j : Nat → Option (List Entry)) : List Block → Prop
   | [] => True
   | b :: rest => j b.id = some (journalOf (utxoRev rest) (rest.length + 1) b) ∧ JournalOk j rest
 
+/-- The persisted bucket is the fold of the active chain up to the persisted consistency
+marker (which names an active block, or genesis = 0). -/
+def MarkerOk (db : Db) (marker : Nat) (chainRev : List Block) : Prop :=
+  ∃ above below, chainRev = above ++ below ∧ tipId below = marker ∧ db = utxoRev below
+
+/-- What survives an unclean shutdown: the persistent part of the invariant. -/
+structure PInv (s : State) : Prop where
+  persist : MarkerOk s.db s.marker s.chainRev
+  journal : JournalOk s.journal s.chainRev
+  valid : ChainValid s.chainRev
+  nodup : (s.chainRev.map (·.id)).Nodup
+  nonzero : ∀ b ∈ s.chainRev, b.id ≠ 0
+
 /-- The inductive invariant of the chain-level state machine. -/
 structure Inv (s : State) : Prop where
   cinv : CInv s.cache s.db
@@ -45,9 +58,13 @@ structure Inv (s : State) : Prop where
   journal : JournalOk s.journal s.chainRev
   valid : ChainValid s.chainRev
   nodup : (s.chainRev.map (·.id)).Nodup
+  persist : MarkerOk s.db s.marker s.chainRev
+  nonzero : ∀ b ∈ s.chainRev, b.id ≠ 0
+
+theorem Inv.pinv {s : State} (h : Inv s) : PInv s := ⟨h.persist, h.journal, h.valid, h.nodup, h.nonzero⟩
 
 theorem inv_init : Inv init :=
-  ⟨cinv_empty _, rfl, trivial, trivial, List.nodup_nil⟩
+  ⟨cinv_empty _, rfl, trivial, trivial, List.nodup_nil, ⟨[], [], rfl, rfl, rfl⟩, fun _ h => by simp [init] at h⟩
 
 theorem journalOk_set (j : Nat → Option (List Entry)) (id : Nat) (v : Option (List Entry))
     (chain : List Block) (hid : id ∉ chain.map (·.id)) (h : JournalOk j chain) :
@@ -62,14 +79,17 @@ theorem journalOk_set (j : Nat → Option (List Entry)) (id : Nat) (v : Option (
 
 /-! ### flush -/
 
-theorem flushAt_inv (s : State) (tip : Nat) (mode : Mode) (full due : Bool) (h : Inv s) :
+theorem flushAt_inv (s : State) (tip : Nat) (mode : Mode) (full due : Bool) (h : Inv s)
+    (htip : tip = tipId s.chainRev) :
     Inv (flushAt s tip mode full due) ∧ (flushAt s tip mode full due).chainRev = s.chainRev ∧
     (flushAt s tip mode full due).journal = s.journal := by
   unfold flushAt
   split
-  · refine ⟨⟨cinv_empty _, ?_, h.journal, h.valid, h.nodup⟩, rfl, rfl⟩
+  · have hdb : writeCache s.cache s.db = utxoRev s.chainRev := by
+      rw [writeCache_eq_abs _ _ h.cinv]; exact h.abs_eq
+    refine ⟨⟨cinv_empty _, ?_, h.journal, h.valid, h.nodup, ⟨[], s.chainRev, rfl, htip.symm, hdb⟩, h.nonzero⟩, rfl, rfl⟩
     show abs emptyCache (writeCache s.cache s.db) = _
-    rw [abs_empty, writeCache_eq_abs _ _ h.cinv]; exact h.abs_eq
+    rw [abs_empty, hdb]
   · exact ⟨h, by trivial, by trivial⟩
 
 /-- After a flush that happens, the bucket alone is the fold, the cache is empty and the
@@ -89,7 +109,7 @@ theorem flushAt_required (s : State) (tip : Nat) (full due : Bool) (h : Inv s) :
 theorem fetch_inv (s : State) (o : OutPoint) (h : Inv s) :
     Inv { s with cache := (fetch s.cache s.db o).1 } := by
   have hf := fetch_spec s.cache s.db o h.cinv
-  exact ⟨hf.1, (funext hf.2.1).trans h.abs_eq, h.journal, h.valid, h.nodup⟩
+  exact ⟨hf.1, (funext hf.2.1).trans h.abs_eq, h.journal, h.valid, h.nodup, h.persist, h.nonzero⟩
 
 /-- `FetchUtxoEntry` returns the fold's value (nil or spent = absent). -/
 theorem fetch_result (s : State) (o : OutPoint) (h : Inv s) :
@@ -100,7 +120,7 @@ theorem fetch_result (s : State) (o : OutPoint) (h : Inv s) :
 
 theorem connect_inv (s : State) (b : Block) (validate bip30 full : Bool) (h : Inv s)
     (hv : validBlock (utxoRev s.chainRev) (s.chainRev.length + 1) b)
-    (hid : b.id ∉ s.chainRev.map (·.id)) :
+    (hid : b.id ∉ s.chainRev.map (·.id)) (hnz : b.id ≠ 0) :
     ∃ s', connect s b validate bip30 full = some s' ∧ Inv s' ∧ s'.chainRev = b :: s.chainRev := by
   unfold connect
   -- validation fetches keep everything
@@ -119,7 +139,8 @@ theorem connect_inv (s : State) (b : Block) (validate bip30 full : Bool) (h : In
   let s1 : State := { s with cache := c1, journal := setJournal s.journal b.id (some (journalOf (abs c0 s.db) (s.chainRev.length + 1) b)),
                              chainRev := b :: s.chainRev }
   have hs1 : Inv s1 := by
-    refine ⟨hc1, ?_, ⟨?_, ?_⟩, ⟨?_, h.valid⟩, ?_⟩
+    obtain ⟨above, below, hsplit, hmk, hdb⟩ := h.persist
+    refine ⟨hc1, ?_, ⟨?_, ?_⟩, ⟨?_, h.valid⟩, ?_, ⟨b :: above, below, ?_, hmk, hdb⟩, ?_⟩
     · show abs c1 s.db = applyBlock (utxoRev s.chainRev) (s.chainRev.length + 1) b
       rw [habs1, hc0a]
     · show setJournal s.journal b.id _ b.id = _
@@ -128,7 +149,14 @@ theorem connect_inv (s : State) (b : Block) (validate bip30 full : Bool) (h : In
     · rw [← hc0a]; exact hv
     · show (b.id :: s.chainRev.map (·.id)).Nodup
       exact List.nodup_cons.mpr ⟨hid, h.nodup⟩
-  have hfl := flushAt_inv s1 b.id .ifNeeded full false hs1
+    · show b :: s.chainRev = b :: above ++ below
+      rw [hsplit]; rfl
+    · intro x hx
+      have : x = b ∨ x ∈ s.chainRev := List.mem_cons.mp hx
+      rcases this with rfl | hx
+      · exact hnz
+      · exact h.nonzero x hx
+  have hfl := flushAt_inv s1 b.id .ifNeeded full false hs1 rfl
   exact ⟨_, rfl, hfl.1, hfl.2.1⟩
 
 end BV.C03.Lemmas
